@@ -739,6 +739,14 @@ func computeOrdinals(fn *ssa.Function) map[ssa.Instruction]anchorID {
 				if fa, ok := x.Addr.(*ssa.FieldAddr); ok {
 					st := fa.X.Type().Underlying().(*types.Pointer).Elem().Underlying().(*types.Struct)
 					id = anchorID{kind: "store", target: st.Field(fa.Field).Name()}
+				} else if ld, ok := x.Addr.(*ssa.UnOp); ok && ld.Op == token.MUL {
+					// *p.f = v: a store through a pointer held in a field
+					fa, ok := ld.X.(*ssa.FieldAddr)
+					if !ok {
+						continue
+					}
+					st := fa.X.Type().Underlying().(*types.Pointer).Elem().Underlying().(*types.Struct)
+					id = anchorID{kind: "store", target: "deref." + st.Field(fa.Field).Name()}
 				} else {
 					continue
 				}
